@@ -89,6 +89,9 @@ type c19Env struct {
 	poolPre  [][]byte // their mllama.Preprocess output, serialised as chatPrompt does
 	poolAR   []int
 	srcs     []string
+	pairs    *os.File
+	npairs   int
+	maxPairs int
 	fixed    int // variant of the tree under test: f4fixed + 2*lmode + 8*efix (see the oracle)
 	probeOdd int // probes that matched neither variant
 }
@@ -913,6 +916,27 @@ var c19Fixed = []c19Case{
 	{style: 1, proj: 2, mllama: true, limit: 1, msgs: []c19Msg{{role: "u", content: "m0q one two three four", imgs: []c19Img{{1000, true}, {1001, true}}}, {role: "a", content: "m1q a b c d e f"}, {role: "u", content: "m2q x"}}},
 }
 
+// emitPair records what chatPrompt hands to the runner (prompt + image ids) for the runner-side
+// driver (harness/overlay/runner_ollamarunner/zz_verif_c19_test.go), which feeds it to the real
+// `inputs`.
+func (e *c19Env) emitPair(c *c19Case, r *c19Real) {
+	if e.pairs == nil || e.npairs >= e.maxPairs {
+		return
+	}
+	e.npairs++
+	h := "H1"
+	for _, m := range c.msgs {
+		if strings.Contains(m.content, "[img-") {
+			h = "H0"
+		}
+	}
+	fmt.Fprintf(e.pairs, "%s %s %d", h, zzverif.Hex([]byte(r.prompt)), len(r.images))
+	for _, im := range r.images {
+		fmt.Fprintf(e.pairs, " %d", im.id)
+	}
+	fmt.Fprintln(e.pairs)
+}
+
 // resolveStyle gives a replayed case (which carries only the template source) its style label.
 func (e *c19Env) resolveStyle(c *c19Case) {
 	for i, s := range e.srcs {
@@ -968,6 +992,7 @@ func (e *c19Env) runCase(out *zzverif.Out, c *c19Case) {
 		if len(r.images) > 0 {
 			out.Count("ok_with_images_returned")
 		}
+		e.emitPair(c, &r)
 	}
 	e.l2(out, c, costs, &r, line)
 }
@@ -976,6 +1001,10 @@ func TestVerifC19(t *testing.T) {
 	e := c19NewEnv(t)
 	out := zzverif.NewOut()
 	defer out.Close()
+	if f, err := os.Create(zzverif.OutDir() + "/pairs.txt"); err == nil {
+		e.pairs, e.maxPairs = f, zzverif.EnvInt("VERIF_PAIRS", 4000)
+		defer f.Close()
+	}
 	out.Add("variant_probe_unexpected", e.probeOdd)
 	out.Add("variant_f4_fixed", e.fixed&1)
 	out.Add("variant_legacy_mode", (e.fixed>>1)&3)
